@@ -134,11 +134,24 @@ def make_case(rng, n_ids=None, id_type=None, pop=None, interleave=None, mapped=N
           'missing': bool(rng.integers(0, 2)) if missing is None else missing, 'fixed': bool(rng.integers(0, 2)) if fixed is None else fixed, 'ind': {}}
     for i_, id_ in enumerate(ids):
         ind = {'meas': {0: [], 1: []}, 'doses': [], 'cov': {}, 'noise': []}
+        # every mapped observable occurs in the dataset (documented precondition: the first individual has both); later individuals may lack
+        # all measurements of either observable -- also of the first one -- but have at least one measurement
+        skip_first = i_ > 0 and mapped != 'o0 only' and int(rng.integers(0, 4)) == 0
         for o in (0, 1):
-            n_m = int(rng.integers(1 if (o == 0 or i_ == 0) else 0, 5))       # every mapped observable occurs in the dataset (documented precondition)
+            n_m = int(rng.integers(1 if (o == 0 or i_ == 0 or skip_first) else 0, 5))
+            if o == 0 and skip_first:
+                n_m = 0
             ts = np.sort(rng.choice(np.arange(1, 30), size=n_m, replace=False)) * 0.5
             for t in ts:
                 ind['meas'][o].append((float(t), 3.0 + 0.0137 * next(tag) + 0.5 * t))
+        if int(rng.integers(0, 3)) == 0:
+            # replicate measurement: the same observable measured twice at the same time with the same value (two rows that agree in every column)
+            o = 0 if (ind['meas'][0] and (mapped == 'o0 only' or int(rng.integers(0, 2)) == 0)) else 1
+            if ind['meas'][o]:
+                k_ = int(rng.integers(0, len(ind['meas'][o])))
+                ind['meas'][o].insert(k_, ind['meas'][o][k_])
+                if int(rng.integers(0, 2)) == 0:
+                    ind['meas'][o].insert(k_, ind['meas'][o][k_])
         n_d = int(rng.integers(0, 4))
         for st in np.sort(rng.choice(np.arange(0, 20), size=n_d, replace=False)) * 0.5:
             ind['doses'].append((float(st), float(rng.integers(1, 9)), (None if rng.integers(0, 2) else float(rng.integers(1, 5)) * 0.25)))
